@@ -21,6 +21,7 @@ var checks = map[string]func(*core.Ctx) int{
 	"C11": core.CheckC11,
 	"C12": core.CheckC12,
 	"C13": core.CheckC13,
+	"C19": core.CheckC19,
 }
 
 func main() {
